@@ -323,7 +323,10 @@ class MinGenSet():
         start_time = time.perf_counter()
 
         # Solve for increasing numbers of elements in the generating set
-        for k in range(self.lowerbound, max(self.lowerbound+1, len(self.initial_numbers))):
+        # A minimum generating set can have more elements than there are numbers (e.g. numbers [1,2,4] and total 100
+        # need {1,2,4,93}); partition constraints may require splitting elements further
+        max_k = len(self.initial_numbers) + 1 + sum(len(c) for c in (self.partition_constraints or []))
+        for k in range(self.lowerbound, max(self.lowerbound, max_k) + 1):
             self._create_solver(k=k)
             self.solver.optimize()
 
@@ -343,6 +346,10 @@ class MinGenSet():
                     "solve_time": time.perf_counter() - start_time,
                     "status": self.solver.get_model_status(),
                 }
+                # If the solver stopped for another reason than infeasibility (e.g. time limit), we cannot conclude
+                # that no generating set with k elements exists, so we must not continue with a larger k
+                if self.solver.get_model_status() != sw.SolverWrapper.infeasible_status:
+                    return False
         return False
 
     def is_solved(self):
